@@ -14,6 +14,7 @@ def run_deductive(rep):
     rep.trust("sklearn.metrics.confusion_matrix(labels=[neg,pos], normalize='true', sample_weight=w).ravel() == (tnr, fpr, fnr, tpr) of the weighted rows, "
               "all-zero rows give 0 (assumed; exercised by the bounded stand-in)",
               "numpy.unique returns the strictly increasing distinct values (assumed)", "z3", "pyvc symbolic executor")
+    items = []
     for sort in ("int", "str"):
         for L in (1, 2, "many"):
             for pos in (False, True):
@@ -23,16 +24,18 @@ def run_deductive(rep):
                            ("accept_foreign_pos_label", lambda fn: _replace_raise_with_pass(fn, "_NEED_POS_LABEL_IN_Y_VALS"))]
                 if L == 1 and pos and sort == "int":
                     can = [("single_value_wrong_side", verify.flip_strictness(0, lambda c: ast.unparse(c) == "unique_labels[0] == pos_label"))]
-                verify.verify(rep, GetLabels(L, pos, sort), canaries=can, quiet=True)
+                items.append((GetLabels(L, pos, sort), can))
     for fname in Rate.COMPONENT:
-        verify.verify(rep, Rate(fname), canaries=[("returns_other_cell", _return_other(fname))], quiet=True)
+        items.append((Rate(fname), [("returns_other_cell", _return_other(fname))]))
     try:
         from ..contracts.shapes import ScalarShape
     except ImportError:
+        verify.verify_many(rep, items)
         return
     for fname in ("selection_rate", "mean_prediction"):
         for weighted in (False, True):
-            verify.verify(rep, ScalarShape(fname, weighted), quiet=True)
+            items.append((ScalarShape(fname, weighted), []))
+    verify.verify_many(rep, items)
 
 
 def _replace_raise_with_pass(fn, msg_name):
